@@ -9,6 +9,10 @@ any point of any interleaving), a global TTL and TTI (`Cfg.ttl`, `Cfg.tti`), per
 `insert` builds its entry — deadline = clock + TTL — before taking any lock (at the call);
 `entry().or_insert` builds it inside the write-lock section. The tie checks that placement on every
 step (footprint: acquisitions and clock reads in program order).
+
+Programs may MIX calls on the sync handle (`Cache`) and on the async handle (`AsyncCache`): the environment
+label `call op async` chooses the handle per call, and every theorem below quantifies over such mixed
+programs (see `Fv.Props.CacheConcAsync` for what differs between the two handles).
 -/
 namespace Fv.Props.C12Conc
 open Fv.Cache.Conc
